@@ -33,7 +33,8 @@ POSITIONS = {
     "structarray": "struct N {{ {T} *p; uint8 k; }};\nstruct S {{ uint8 h; N ns[2]; uint8 t; }};",
 }
 BUFLEN = 36
-CONTENTS = [bytes(((i * 23 + 5) % 251) + 1 if i % 7 else 0 for i in range(BUFLEN)), bytes([2, 0x41, 0x42, 0, 0, 3, 0x61, 0x62, 0x63] * 4)]
+CONTENTS = [bytes(((i * 23 + 5) % 251) + 1 if i % 7 else 0 for i in range(BUFLEN)), bytes([2, 0x41, 0x42, 0, 0, 3, 0x61, 0x62, 0x63] * 4),
+            bytes([0, 0, 0, 0, 9, 0, 0, 0, 0, 0, 0, 7] * 3)]  # runs of zero bytes: all-zero (falsy) targets
 LONG = bytes(36) + bytes(0x21 + (i % 90) for i in range(70)) + b"\x00" + bytes(0x41 + (i % 26) for i in range(140)) + b"\x00\x00\x07"  # strings of 70 and 140 bytes
 WIDTHS = ("uint8", "uint16", "uint32", "uint64")
 
@@ -185,7 +186,7 @@ def check_case(tkey, pos, width, endian, compiled, res: JobResult, tier):
     except Exception as e:  # noqa: BLE001
         issue("default:raises", f"{impl.exc_sig(e)} {e!r}")
     if len(res.samples) < 2:
-        res.samples.append({"definition": POSITIONS[pos].format(T=tname), "pointer": width, "endian": endian, "addresses": f"0..{maxaddr}", "contents": 2})
+        res.samples.append({"definition": POSITIONS[pos].format(T=tname), "pointer": width, "endian": endian, "addresses": f"0..{maxaddr}", "contents": len(CONTENTS)})
 
 
 def deref_checks(cs, S, v, st, p, pname, a, tkey, buf, cfg, size, issue, res, addr, ci, NullPointerDereference, Pointer):
@@ -229,6 +230,18 @@ def deref_checks(cs, S, v, st, p, pname, a, tkey, buf, cfg, size, issue, res, ad
                 issue("deref:unstable", f"{label} at {at}: second dereference raises {impl.exc_sig(e)}", addr=addr, content=ci)
                 return False
             if tkey == "tt_t":
+                # "stable": the structure handed out is the one handed out again (an assignment made through it is still there on the next access)
+                try:
+                    keep = int(r.a)
+                    r.a = keep ^ 0x5A  # r and r2 were both handed out before this assignment
+                    seen = (int(r2.a), int(ptr.dereference().a))
+                    r.a = keep
+                    if seen != (keep ^ 0x5A, keep ^ 0x5A):
+                        issue("deref:unstable", f"{label} at {at}: t = p.dereference(); t2 = p.dereference(); t.a = {keep ^ 0x5A:#x}: t2.a / the next dereference show a = {seen} (target {exp[1]})", addr=addr, content=ci)
+                        return False
+                except Exception as e:  # noqa: BLE001
+                    issue("deref:unstable", f"{label} at {at}: assignment through the dereferenced structure: {impl.exc_sig(e)} {e!r}", addr=addr, content=ci)
+                    return False
                 if int(ptr.a) != exp[1]["a"] or int(ptr.b) != exp[1]["b"]:
                     issue("deref:attribute", f"{label} at {at}: attribute access gives a={ptr.a} b={ptr.b}, expected {exp[1]}", addr=addr, content=ci)
                     return False
